@@ -3,6 +3,6 @@ CONSTANTS
   Types = {"application/json", "text/plain", "application/xml"}
   NCallers = 3
   OnceIsNilCheck = FALSE
-INVARIANTS InvPick InvOwn InvOneClient
+INVARIANTS InvCtx InvPick InvOwn InvOneClient
 PROPERTIES AllDone
 CHECK_DEADLOCK FALSE
